@@ -562,10 +562,7 @@ func (t *Tree) link(countsForRule *[TypeLast]uint, n *node, counts *[TypeLast]ui
 		name := n.String()
 		if _, ok := t.Rules[name]; !ok {
 			emptyRule := &node{Type: TypeRule, string: name, id: t.RulesCount}
-			implicitPush := &node{Type: TypeImplicitPush}
-			emptyRule.PushBack(implicitPush)
-			implicitPush.PushBack(&node{Type: TypeNil, string: "<nil>"})
-			implicitPush.PushBack(emptyRule.Copy())
+			emptyRule.PushBack(&node{Type: TypeNil, string: "<nil>"})
 			t.PushBack(emptyRule)
 			t.RulesCount++
 
@@ -1283,7 +1280,7 @@ func (t *Tree) Compile(file string, args []string, out io.Writer) (err error) {
 			continue
 		}
 		expression := element.Front()
-		if implicit := expression.Front(); expression.GetType() == TypeNil || implicit.GetType() == TypeNil {
+		if expression.GetType() == TypeNil {
 			if element.String() != "PegText" {
 				t.warn(fmt.Errorf("rule '%v' used but not defined", element))
 			}
